@@ -322,6 +322,8 @@ def run(tier, seed):
         if pid == 0:
             try:
                 os.close(rfd)
+                import signal
+                signal.alarm(120)          # (a child that cannot finish is killed and reported by the parent as "did not report")
                 with impl.substituted(pol.substitute, pol.now):
                     oa, obs, n = fw.interleaved(lambda: run_spec(spec)[0], lambda: run_spec(spec)[0])
                 os.write(wfd, json.dumps([oa, sorted(set(obs)), n]).encode())
